@@ -34,6 +34,7 @@ def common(tier):
         J('stalesnap3:H2S1', 'stale_snapshot', dict(n=3), dict(H=2, S=1)),
         J('candidates4', 'candidates', dict(n=4, fuse=True), dict()),
         J('stalevote5', 'stale_vote5', dict(n=5, fuse=True), dict(), max_states=250000),
+        J('reelected5:H2', 'reelected5', dict(n=5, fuse=True), dict(H=2), max_states=250000),
         J('stalereset5-b24:H1', 'stale_reset5', dict(n=5, batch_bytes=SMALLB, fuse=True), dict(H=1), max_states=250000),
         J('candidates5x2', 'candidates', dict(n=5, fuse=True), dict()),
         J('pipeline3:H2R1K1', 'reconnect_pipeline', dict(n=3), dict(H=2, R=1, K=1), dict(unrep=4)),
